@@ -15,6 +15,7 @@ class C04(Check):
     id = 'C04'
     module = 'Xrl.Props.C04'
     namespace = 'Xrl.C04'
+    extra_modules = [('Xrl.Props.C04b', 'Xrl.C04'), ('Xrl.Props.C04c', 'Xrl.C04')]
     functions = None
     assumptions = ['PARTIAL: proved are (a) index arithmetic / signed overflow / function-pointer indices of the machine-translated numeric API against the DECLARED C bounds, for all tables and all int arguments, '
                    'and (b) the ownership protocols of the hand models in the sibling projects (parser, crystal containers, C++ wrappers, compound temporaries); the allocator, libc and the compiler are not modelled',
